@@ -221,7 +221,7 @@ pub fn serve() {
         // how ICU4X itself reads each request (trusted base for "usable entry" in the Python oracle)
         let parsed: Vec<Value> = reqs
             .iter()
-            .map(|q| match LanguageIdentifier::try_from_bytes(q.as_bytes()) {
+            .map(|q| match LanguageIdentifier::try_from_bytes(q.trim().as_bytes()) {
                 Ok(id) => json!({
                     "lang": if id.language.is_empty() { Value::Null } else { json!(id.language.as_str()) },
                     "script": id.script.map(|s| s.as_str().to_ascii_lowercase()),
